@@ -603,3 +603,74 @@ def producer_unit(prop):
                  'While#1': LoopSpec(true_inv, modifies=[], name='While#1')},
              prop=prop)
     return u
+
+
+# ------------------------------------------------------------------ _flatten_resolve_paths
+def flatten_setup(b):
+    me = shared.repo_self(b, props=False, cache=False)
+    SEQ = models.opaque_type('PathSeq')
+    paths = b.sym('paths', SEQ)
+
+    def flatten(interp, st, args, kwargs):
+        st.emit('flatten', arg=args[0])
+        yield st, sym.fresh(SEQ, 'flat')
+
+    b.bind('flatten_paths', Model('flatten_paths', flatten))
+
+    def comp(interp, st, v, node):
+        # (path.resolve(strict=True) for path in paths): an opaque element-wise image of the arguments
+        import ast as _ast
+        st.emit('genexp', source=v, elt=_ast.unparse(node.elt))
+        yield st, SV(SEQ, UF('resolved', SEQ, SEQ)(v.z))
+
+    SEQ.comprehension = comp
+
+    class GenVal:
+        pass
+
+    # `path.resolve(strict=True) for path in paths` : an opaque lazily-mapped sequence
+    def fromkeys(interp, st, args, kwargs):
+        st.emit('fromkeys', arg=args[0])
+        yield st, SV(SEQ, UF('dedup', SEQ, SEQ)(args[0].z))
+
+    def list_(interp, st, args, kwargs):
+        (v,) = args
+        if isinstance(v, SV) and v.ty == SEQ:
+            st.emit('list', arg=v)
+            yield st, v
+        else:
+            yield from models.BUILTINS['list'].fn(interp, st, args, kwargs)
+
+    d = Model('dict', models.BUILTINS['dict'].fn)
+    d.attrs = {'fromkeys': Model('dict.fromkeys', fromkeys)}
+    b.bind('dict', d)
+    b.bind('list', Model('list', list_))
+    b.SEQ = SEQ
+
+
+def flatten_post(prop):
+    def post(res):
+        b = res.builder
+        SEQ = b.SEQ
+        dedup = UF('dedup', SEQ, SEQ)
+        for p in res.paths:
+            if p.kind != 'return':
+                res.oblige(p, f'{prop}.flatten.total', z3.BoolVal(False))
+                continue
+            fl = p.events('flatten')
+            # C01.flatten.distinct: what is returned went through an order-preserving de-duplication
+            # (dict.fromkeys: assumed contract -- keys are pairwise distinct, first occurrences, in order)
+            fk = p.events('fromkeys')
+            ok = isinstance(p.value, SV) and len(fl) == 1 and len(fk) == 1
+            res.oblige(p, f'{prop}.flatten.distinct', z3.BoolVal(bool(ok)) if not ok else z3.And(
+                p.value.z == dedup(fk[0].data['arg'].z),
+                fl[0].data['arg'].z == UF('resolved', SEQ, SEQ)(b.st.lookup('paths').z)))
+    return post
+
+
+def flatten_unit(prop):
+    class GenModel:
+        pass
+    u = Unit(f'{prop}.flatten_resolve_paths', REPO_PY, 'Repository._flatten_resolve_paths', flatten_setup,
+             flatten_post(prop), prop=prop)
+    return u
